@@ -50,7 +50,7 @@ def _build(f, pals, alt=None):
 
 def execute(a, fs, pals, variant=0):
     import dataiter as di
-    rec = {"a": {k: v for k, v in a.items() if k not in ("g", "form", "shape")}, "fs": fs,
+    rec = {"a": {k: v for k, v in a.items() if k not in ("g", "g2", "form", "shape")}, "fs": fs,
            "out": {"cols": [], "cell": {}}, "err": ""}
     try:
         op = a["op"]
@@ -74,8 +74,8 @@ def execute(a, fs, pals, variant=0):
                 d.colnames = list(a["names"])
                 out = d
             elif op in ("cbind", "update"):
-                g = _build(fs[1], pals)
-                out = getattr(d, op)(g)
+                gs = [_build(g, pals) for g in fs[1:]]
+                out = getattr(d, op)(*gs)
             elif op == "modify":
                 col, name = a["col"], a["name"]
                 n = d.nrow
@@ -154,17 +154,18 @@ def run(ctx):
             rot += 1
             chosen = [rng.choice([a for a in cand if a["op"] == op])] + [rng.choice(cand) for _ in range(3)]
         for a in chosen:
-            fs = [fr] + ([a["g"]] if "g" in a else [])
+            fs = [fr] + ([a["g"]] if "g" in a else []) + ([a["g2"]] if "g2" in a else [])
             extra = {a["name"]: a["col"]} if a["op"] == "modify" else {}
             if a["op"] == "colnames":
                 extra = {}
             bc = ()
             if a["op"] == "modify" and len(a["col"]) == 1 and n != 1:
                 bc = (a["name"],)
-            if "g" in a:
-                lens = {c: len(a["g"]["cell"][c]) for c in a["g"]["cols"]}
-                if n != 1 or any(v != 1 for v in lens.values()):
-                    bc = tuple(c for c, v in lens.items() if v == 1)
+            for gk in ("g", "g2"):
+                if gk in a:
+                    lens = {c: len(a[gk]["cell"][c]) for c in a[gk]["cols"]}
+                    if n != 1 or any(v != 1 for v in lens.values()):
+                        bc = bc + tuple(c for c, v in lens.items() if v == 1)
             pals = _pals_for(rng, fs, extra, bc)
             if a["op"] in ("rename", "colnames"):
                 # a renamed column keeps its values: the new name is read with the old column's palette
